@@ -4,11 +4,16 @@ import UxVerif.Model.GridEq
 namespace UxVerif.Driver.C20
 open UxVerif UxVerif.Proto UxVerif.GridEq
 
-/-- wire format of a grid: `spec(list nat) lon(list nat) lat(list nat) nFace width conn(list int) coordVars(0/1)` -/
+/-- wire format of a grid: `spec(list nat) lon(list nat) lat(list nat) nFace width conn(list int) cLon cLat cConn` where a coordinate list is `k (name(list nat) vals(list nat))*` -/
+def coordP : P Coord := do
+  let n ← nats; let v ← nats
+  pure { name := n, vals := v }
+
 def gridP : P Grid := do
   let s ← nats; let lo ← nats; let la ← nats
-  let nf ← nat; let w ← nat; let c ← ints; let cv ← bool
-  pure { spec := s, lon := lo, lat := la, nFace := nf, width := w, conn := c, coordVars := cv }
+  let nf ← nat; let w ← nat; let c ← ints
+  let c1 ← list coordP; let c2 ← list coordP; let c3 ← list coordP
+  pure { spec := s, lon := lo, lat := la, nFace := nf, width := w, conn := c, cLon := c1, cLat := c2, cConn := c3 }
 
 /-- backing of one variable: `0` (numpy) or `1 name chunks(list nat)` (dask) -/
 def backingP : P Backing := do
@@ -39,7 +44,7 @@ def handle (cmd : String) (args : List Int) : Option String :=
       let (a, b) ← run (do let a ← gridP; let b ← gridP; pure (a, b)) args
       let d := differing a b
       pure ((if d.isEmpty then "none" else "+".intercalate d) ++
-        (if a.coordVars == b.coordVars then " coords-same" else " coords-differ"))
+        (if sameCoords a b then " coords-same" else " coords-differ"))
   | "C20.pair" => do
       -- one round trip per observed pair: `a b (a==b) (a!=b) (b==a) (b!=a)` →
       -- `<differing> <coords>;<Spec a b>;<Spec b a>;<symm>;<model == != asis>`
@@ -49,7 +54,7 @@ def handle (cmd : String) (args : List Int) : Option String :=
         pure (a, b, e1, n1, e2, n2)) args
       let d := differing a b
       let ds := (if d.isEmpty then "none" else "+".intercalate d) ++
-        (if a.coordVars == b.coordVars then " coords-same" else " coords-differ")
+        (if sameCoords a b then " coords-same" else " coords-differ")
       let m := s!"{encBool (pyEq a (.grid b))} {encBool (pyNe a (.grid b))} {encBool (gridEqAsIs a b)}"
       pure (";".intercalate [ds, verdict (failing a b e1 n1), verdict (failing b a e2 n2),
         verdict (if symmOK e1 e2 then [] else ["eq_symm"]), m])
@@ -63,9 +68,9 @@ def handle (cmd : String) (args : List Int) : Option String :=
         pure (a, b, e1, n1, e2, n2)) args
       let d := differing a.g b.g
       let ds := (if d.isEmpty then "none" else "+".intercalate d) ++
-        (if a.g.coordVars == b.g.coordVars then " coords-same" else " coords-differ")
+        (if sameCoords a.g b.g then " coords-same" else " coords-differ")
       let m := s!"{encBool (pyEq a.g (.grid b.g))} {encBool (pyNe a.g (.grid b.g))} {encBool (gridEqAsIs a.g b.g)}"
-      let bm := s!"{encBool (gridEqB a b)} {encBool (gridEqB b a)} {encBool (namesFaithful a b)} {encBool (namesFaithful b a)} {encBool (gridEqCoords a.g b.g)}"
+      let bm := s!"{encBool (gridEqB a b)} {encBool (gridEqB b a)} {encBool (namesFaithful a b)} {encBool (namesFaithful b a)} {encBool (gridEqCoords a.g b.g)} {encBool (gridEqConnDA a.g b.g)}"
       pure (";".intercalate [ds, verdict (failing a.g b.g e1 n1), verdict (failing b.g a.g e2 n2),
         verdict (if symmOK e1 e2 then [] else ["eq_symm"]), m, bm, a.kind ++ "+" ++ b.kind])
   | "C20.wf" => do
@@ -85,7 +90,7 @@ def handle (cmd : String) (args : List Int) : Option String :=
       pure (verdict (if nonGridOK e n then [] else ["non_grid_false"]))
   | "C20.nongrid_model" => do
       let t ← run nat args
-      let a : Grid := ⟨[], [], [], 0, 0, [], false⟩
+      let a : Grid := ⟨[], [], [], 0, 0, [], [], [], []⟩
       pure s!"{encBool (pyEq a (.other t))} {encBool (pyNe a (.other t))}"
   | "C20.ieee" => do
       -- bit-level model of IEEE `==` / NaN / NaN-aware equality next to Lean's own `Float`
